@@ -147,9 +147,28 @@ def check_via_netlist(case, res, fam, lst):
                       f'{type(e).__name__}: {e}')
         return
     m = n.get_module('M')
+    _judge_module(case, res, fam, lst, m, ex, vecs, 'netlist')
+    if len(ex) >= 2:
+        # two-step history: load the module without its last rectangle (recognition runs on load), add the
+        # rectangle, ask for recognition again -- the verdict must be the one for the full list
+        from frame.geometry.geometry import parse_yaml_rectangle
+        reset_frame_state()
+        try:
+            n2 = Netlist({'Modules': {'M': {'area': 1, 'rectangles': vecs[:-1]}}})
+            m2 = n2.get_module('M')
+            m2.add_rectangle(parse_yaml_rectangle(vecs[-1]))
+            n2.create_stogs()
+        except Exception as e:  # noqa
+            res.violation('raises', case, dict(fam=fam, n=len(lst), via='netlist+add'), 'recognition after add_rectangle',
+                          f'{type(e).__name__}: {e}')
+            return
+        _judge_module(case, res, fam, lst, m2, ex, vecs, 'netlist+add')
+
+
+def _judge_module(case, res, fam, lst, m, ex, vecs, via):
     rects = m.rectangles
     if len(rects) != len(ex):
-        res.violation('permutation', case, dict(fam=fam, n=len(lst), via='netlist'), len(ex), len(rects))
+        res.violation('permutation', case, dict(fam=fam, n=len(lst), via=via), len(ex), len(rects))
         return
     # identify each rectangle with an input index (multiset match on values)
     pool = {}
@@ -159,11 +178,11 @@ def check_via_netlist(case, res, fam, lst):
     for r in rects:
         key = (r.center.x, r.center.y, r.shape.w, r.shape.h)
         if not pool.get(key):
-            res.violation('altered', case, dict(fam=fam, n=len(lst), via='netlist'), 'input rectangles', key)
+            res.violation('altered', case, dict(fam=fam, n=len(lst), via=via), 'input rectangles', key)
             return
         new_ex.append(ex[pool[key].pop()])
     exists = any(is_trunk(ex, i) for i in range(len(ex)))
-    attrs = dict(fam=fam, n=len(lst), via='netlist', repeated=len(set(ex)) < len(ex))
+    attrs = dict(fam=fam, n=len(lst), via=via, repeated=len(set(ex)) < len(ex))
     if m.has_stog != exists:
         res.violation('sound-complete', case, dict(attrs, dup_of_trunk=m.has_stog and not exists and attrs['repeated']),
                       exists, m.has_stog)
